@@ -1,11 +1,179 @@
 /-
-  C10 — property theorems only (placeholder until the proofs land).
--/
-import JSV.Model.Validate
-namespace JSV.C10
-open JSV Go
+  C10 — totality and "no panic".  (Lean functions are total, so termination of the model is free; the content is
+  that the modelled computations end in a value or an error — never in `.panic`, and never in `.fuel` when the fuel
+  the entry points supply is used.)
 
-theorem validateFuel_zero (env : VEnv) (stack : List NodeId) (i : GoVal) (s : NodeId) :
-    validateFuel env 0 stack i s = .fuel := rfl
+  `NoPF r` (JSV/Proofs/Tot.lean) := r ≠ .panic ∧ r ≠ .fuel.
+-/
+import JSV.Proofs.Tot
+import JSV.Proofs.TotUnmarshal
+import JSV.Proofs.TotFacts
+import JSV.Proofs.TotInfer
+import JSV.Props.C01
+import JSV.Props.C08
+import JSV.Props.C11
+import JSV.Props.C12
+namespace JSV.C10
+open JSV Go Refine
+
+/-! ## UnmarshalJSON -/
+
+/-- every parsed JSON value: UnmarshalJSON returns a schema or an error; the fuel `j.size + 1` of the entry point suffices -/
+theorem unmarshal_no_panic (j : Json) (st : Store) : Go.unmarshal j st ≠ .panic ∧ Go.unmarshal j st ≠ .fuel :=
+  unmarshalFuel_NoPF (j.size + 1) j st (Nat.le_succ _)
+
+/-- any fuel ≥ the size of the document suffices -/
+theorem unmarshalFuel_no_panic (fuel : Nat) (j : Json) (st : Store) (h : j.size ≤ fuel) :
+    Go.unmarshalFuel fuel j st ≠ .panic ∧ Go.unmarshalFuel fuel j st ≠ .fuel :=
+  unmarshalFuel_NoPF fuel j st h
+
+/-! ## checkStructure -/
+
+/-- also on shared / cyclic graphs: each step either errs or records a NEW id, so `st.size + 1` steps suffice
+    (a fortiori the `st.size + 2` of the task statement) -/
+theorem checkStructure_no_fuel (st : Store) (fuel : Nat) (root : NodeId) (h : fuel ≥ st.size + 1) :
+    checkStructure st fuel [(root, "")] [] ≠ .fuel :=
+  checkStructure_no_fuel_gen st fuel _ [] ⟨List.nodup_nil, fun _ h => nomatch h⟩ (by simpa using h)
+
+theorem checkStructure_no_fuel' (st : Store) (fuel : Nat) (root : NodeId) (h : fuel ≥ st.size + 2) :
+    checkStructure st fuel [(root, "")] [] ≠ .fuel :=
+  checkStructure_no_fuel st fuel root (by omega)
+
+/-- it has no panic outcome -/
+theorem checkStructure_no_panic (st : Store) (fuel : Nat) (work : List (NodeId × String)) (acc : List (NodeId × Info)) :
+    checkStructure st fuel work acc ≠ .panic :=
+  checkStructure_no_panic_gen st fuel work acc
+
+/-- on success the recorded ids are pairwise distinct and all exist in the store -/
+theorem checkStructure_tree (st : Store) (fuel : Nat) (root : NodeId) (infos : List (NodeId × Info)) :
+    checkStructure st fuel [(root, "")] [] = .ok infos →
+      (infos.map (·.1)).Nodup ∧ ∀ id ∈ infos.map (·.1), (st.get? id).isSome = true :=
+  fun h => checkStructure_accOK st fuel _ [] infos h ⟨List.nodup_nil, fun _ h => nomatch h⟩
+
+/-! ## equalValue, hashValue -/
+
+theorem equalValue_no_panic (x y : GoVal) (jx jy : Json) (hx : GoVal.denote x = some jx) (hy : GoVal.denote y = some jy) :
+    Go.equalValue x y ≠ .panic ∧ Go.equalValue x y ≠ .fuel := by
+  rw [C11.equal_iff x y jx jy hx hy]; exact NoPF_ok _
+
+theorem hashEnc_no_panic (x : GoVal) (j : Json) (hx : GoVal.denote x = some j) :
+    Go.hashEnc x ≠ .panic ∧ Go.hashEnc x ≠ .fuel := by
+  obtain ⟨bs, h⟩ := C12.hashEnc_ok x j hx
+  rw [h]; exact NoPF_ok _
+
+/-! ## validate -/
+
+/-- under a well-formed environment, with a stack whose schemas have resolution records, on ANY Go representation of a
+    well-formed JSON instance: whenever the Spec decides (with this fuel), the evaluator neither panics nor runs out of fuel.
+    Partial: says nothing when the Spec does not decide (unguarded recursion). -/
+theorem validate_no_panic_partial (env : VEnv) (hwf : EnvWF env) (hst : StoreWF env.st) (fuel : Nat) (stack : List NodeId)
+    (hstack : ∀ x, x ∈ stack → (env.info? x).isSome = true) (s : NodeId) (g : GoVal) (j : Json)
+    (hg : GoVal.denote g = some j) (hj : Json.WF j = true)
+    (hs : (Spec.evalFuel (specEnvOf env) fuel stack s j).isSome = true) :
+    Go.validateFuel env fuel stack g s ≠ .panic ∧ Go.validateFuel env fuel stack g s ≠ .fuel := by
+  rw [C08.validate_repr env hwf.hash_respects fuel stack s g j hg hj]
+  have hrel := C01.validate_refines_spec env hwf hst fuel stack hstack s j hj
+  cases he : Spec.evalFuel (specEnvOf env) fuel stack s j with
+  | none => rw [he] at hs; cases hs
+  | some r =>
+    rw [he] at hrel
+    cases r with
+    | none => simp only [Rel] at hrel; rw [hrel]; exact NoPF_err
+    | some ev => obtain ⟨a, ha, _⟩ := hrel; rw [ha]; exact NoPF_ok _
+
+/-- at the entry point -/
+theorem validate_entry_no_panic_partial (env : VEnv) (hwf : EnvWF env) (hst : StoreWF env.st) (supported : List String)
+    (fuel : Nat) (root : NodeId) (rn : Node) (hroot : env.st.get? root = some rn) (g : GoVal) (j : Json)
+    (hg : GoVal.denote g = some j) (hj : Json.WF j = true)
+    (hs : (Spec.valid (specEnvOf env) fuel root j).isSome = true) :
+    Go.validate env supported fuel root g ≠ .panic ∧ Go.validate env supported fuel root g ≠ .fuel := by
+  unfold Go.validate
+  rw [hroot]
+  simp only []
+  split
+  · exact NoPF_err
+  · refine NoPF_bind (validate_no_panic_partial env hwf hst fuel [] (fun _ h => nomatch h) root g j hg hj ?_) fun _ _ => NoPF_ok _
+    unfold Spec.valid at hs
+    cases he : Spec.evalFuel (specEnvOf env) fuel [] root j with
+    | none => rw [he] at hs; cases hs
+    | some r => rfl
+
+/-! ## applyDefaults -/
+
+/-- every schema object has an info record (`EnvWF.info_total`) and the `properties` children exist ⇒ no panic -/
+theorem applyDefaults_no_panic (env : VEnv) (hwf : EnvWF env)
+    (hprops : ∀ s n, env.st.get? s = some n → ∀ p c, (p, c) ∈ n.properties.getD [] → (env.st.get? c).isSome = true)
+    (fuel : Nat) (id : NodeId) (inst : Json) (hid : (env.st.get? id).isSome = true) :
+    Go.applyDefaultsFuel env fuel id inst ≠ .panic :=
+  applyDefaultsFuel_NoP env hwf.info_total hprops fuel id inst hid
+
+/-- and when `properties` edges decrease some rank (a tree: its height), fuel above the rank of the root suffices,
+    whatever the instance and the defaults -/
+theorem applyDefaults_no_fuel (env : VEnv) (rank : NodeId → Nat)
+    (hrank : ∀ s n, env.st.get? s = some n → ∀ p c, (p, c) ∈ n.properties.getD [] → rank c < rank s)
+    (fuel : Nat) (id : NodeId) (inst : Json) (h : rank id < fuel) :
+    Go.applyDefaultsFuel env fuel id inst ≠ .fuel :=
+  applyDefaultsFuel_NoFuel env rank hrank fuel id inst h
+
+/-! ## forType -/
+
+/-- the cycle check: one step of forType on (pointers to) a named type — or a back reference `.ref name` to one — whose name
+    is already in `seen` returns an error; it makes no recursive call (the result does not depend on `rec`) -/
+theorem forType_cycle_detected (opts : IOpts) (rec : IRec) (t0 : GoType) (seen : List String) (st : Store) (nm : String) :
+    typeName (stripPtrs t0).1 = some nm → seen.contains nm = true → inferStep opts rec t0 seen st = .err :=
+  inferStep_cycle opts rec t0 seen st nm
+
+theorem forType_cycle_detected_ref (opts : IOpts) (rec : IRec) (name : String) (seen : List String) (st : Store) :
+    seen.contains name = true → inferStep opts rec (.ref name) seen st = .err :=
+  inferStep_cycle opts rec (.ref name) seen st name rfl
+
+theorem forType_cycle_detected_named (opts : IOpts) (rec : IRec) (name : String) (u : GoType) (seen : List String) (st : Store) :
+    seen.contains name = true → inferStep opts rec (.named name u) seen st = .err :=
+  inferStep_cycle opts rec (.named name u) seen st name rfl
+
+/-- (stretch) fuel: a type whose nesting depth (`depth`: slices, arrays, maps, struct fields count; pointers and the step
+    named → underlying do not) is at most the fuel never runs out of fuel, provided cloning the type-table entries does not
+    (`hs`; vacuous for an empty table) -/
+theorem forType_no_fuel (opts : IOpts)
+    (hs : ∀ nm sid st, Json.lookup nm opts.schemas = some sid → clone st sid ≠ .fuel)
+    (fuel : Nat) (t : GoType) (st : Store) (h : depth t ≤ fuel) : Go.forType opts fuel t st ≠ .fuel :=
+  inferFuel_NoFuel opts hs fuel t [] st h
+
+theorem forType_no_fuel_empty_table (opts : IOpts) (hs : opts.schemas = [])
+    (fuel : Nat) (t : GoType) (st : Store) (h : depth t ≤ fuel) : Go.forType opts fuel t st ≠ .fuel :=
+  forType_no_fuel opts (fun nm sid st hl => by rw [hs] at hl; cases hl) fuel t st h
+
+/-! ## JSON Pointer -/
+
+/-- dereferenceJSONPointer has no panic / fuel outcome -/
+theorem pointer_no_panic (st : Store) (strict nilIsError : Bool) (root : NodeId) (sptr : String) :
+    Pointer.dereference st strict nilIsError root sptr ≠ .panic ∧ Pointer.dereference st strict nilIsError root sptr ≠ .fuel :=
+  dereference_NoPF st strict nilIsError root sptr
+
+/-! ## the explicit panic sites of the source -/
+
+/-- a new panic(...) / assert(...) in the package breaks this obligation -/
+theorem panic_sites_fact : Generated.panicSites = expectedPanicSites := by decide +kernel
+
+/-! ## examples -/
+
+example : (Go.unmarshal (.obj [("type", .num 3)]) #[]).verdict = some false := by decide +kernel
+example : (Go.unmarshal (.obj [("items", .arr [.bool true, .null]), ("x", .null)]) #[]).isOk = true := by decide +kernel
+/-- a cyclic store: node 0 is its own `not` child; checkStructure stops with an error after 2 steps -/
+example : (checkStructure #[{ not := some 0 }] 2 [(0, "")] []).verdict = some false := by decide +kernel
+example : (checkStructure #[{ not := some 1 }, {}] 3 [(0, "")] []).isOk = true := by decide +kernel
+/-- `type T []*T`: the back reference is refused (an error, not unbounded recursion), with any fuel ≥ 2 -/
+example : (Go.forType {} 2 (.named "T" (.slice (.ptr (.ref "T")))) #[]).verdict = some false := by decide +kernel
+example : (Go.forType {} 50 (.named "T" (.slice (.ptr (.ref "T")))) #[]).verdict = some false := by decide +kernel
+example : depth (.named "P" (.map "String" (.slice (.ptr (.basic "Int"))))) = 3 := by decide +kernel
+example : (Go.forType {} 3 (.named "P" (.map "String" (.slice (.ptr (.basic "Int"))))) #[]).isOk = true := by
+  decide +kernel
+example : (Go.forType {} 2 (.named "P" (.map "String" (.slice (.ptr (.basic "Int"))))) #[]).verdict = none := by
+  decide +kernel
+/-- hypotheses of `validate_no_panic_partial` / `applyDefaults_no_panic` on the environment of C01 -/
+example : Go.validateFuel C01.exEnv 3 [] (GoVal.ofJson C01.exGood) 0 ≠ .panic ∧
+    Go.validateFuel C01.exEnv 3 [] (GoVal.ofJson C01.exGood) 0 ≠ .fuel :=
+  validate_no_panic_partial C01.exEnv C01.exEnv_wf C01.exEnv_store 3 [] (fun _ h => nomatch h) 0 _ C01.exGood
+    (denote_ofJson _) (by decide) (by decide)
 
 end JSV.C10
